@@ -245,6 +245,30 @@ class GraphNode(HyperNode):
                 return inner_type
         return None
 
+    def get_input_types(self, param: str) -> list[type | None]:
+        """Expected types of every inner consumer of an input parameter."""
+        original_param = self._resolve_original_input_name(param)
+        mapped = bool(self._map_over) and param in self._map_over
+        types: list[type | None] = []
+        for inner_node in self._graph.iter_nodes():
+            if original_param not in inner_node.inputs:
+                continue
+            for inner_type in inner_node.get_input_types(original_param):
+                types.append(list[inner_type] if mapped and inner_type is not None else inner_type)
+        return types or [None]
+
+    def get_output_types(self, output: str) -> list[type | None]:
+        """Types of every inner producer of an output."""
+        reverse_map = build_reverse_rename_map(self._rename_history, "outputs")
+        original_name = reverse_map.get(output, output)
+        types = [
+            self._wrap_type_for_map_over(inner_type)
+            for inner_node in self._graph.iter_nodes()
+            if original_name in inner_node.outputs
+            for inner_type in inner_node.get_output_types(original_name)
+        ]
+        return types or [self._wrap_type_for_map_over(None)]
+
     def _resolve_original_input_name(self, param: str) -> str:
         """Resolve a possibly-renamed input name back to the original.
 
